@@ -714,6 +714,24 @@ def main(argv=None):
         PROPS = argv[argv.index("--props") + 1].split(",")
     VERBOSE = "-v" in argv
     if mode == "twins":
+        # analyse a private copy of the sources, taken now: the run takes an hour, and a change to the working tree in the
+        # meantime (a repair, a seeded change applied for an experiment) would be mistaken for an alarm on a benign twin
+        import atexit
+        import shutil
+        import tempfile
+
+        snap = tempfile.mkdtemp(prefix="sa-selftest-")
+        atexit.register(shutil.rmtree, snap, ignore_errors=True)
+        shutil.copytree(os.path.join(repo_root(), "src"), os.path.join(snap, "src"), ignore=shutil.ignore_patterns("*.so", "*.c", "build", "__pycache__", "*.egg-info"))
+        for extra in ("doc", "pyproject.toml", "setup.py"):
+            sp = os.path.join(repo_root(), extra)
+            if os.path.isdir(sp):
+                shutil.copytree(sp, os.path.join(snap, extra))
+            elif os.path.exists(sp):
+                shutil.copy(sp, os.path.join(snap, extra))
+        os.environ["VERIF_REPO"] = snap
+        global _ROOT
+        _ROOT = snap
         work = list(gen_twins(fams))
         if "--only" in argv:
             pats = argv[argv.index("--only") + 1].split(",")
